@@ -202,6 +202,31 @@ fn cli_keyring_orders(rep: &Report) {
             }
         }
     });
+    // a name that occurs twice, the two entries NOT next to each other (a received key block pasted at the end under a name
+    // already in use): a file made with the second entry's private key must not come out as "from <that name>" -- the
+    // keyring is ambiguous and is refused
+    {
+        let mallory = Party::new(seed, "mallory", "x");
+        let from_mallory = r::write_key_file(&mallory.sk, &ps[2].pk, &derive32(seed, "c05-dup-e"), &derive32(seed, "c05-dup-p"), &p, &[40]).unwrap();
+        let dup = proc::keyring_entry("alice", &mallory.pk_enc, None);
+        for (label, kr) in [
+            ("alice, bob, alice(other key)", format!("{}\n{}\n{}", ps[0].entry(false), ps[2].entry(true), dup)),
+            ("alice, carol, bob, dave, alice(other key)", format!("{}\n{}\n{}\n{}\n{}", ps[0].entry(false), ps[1].entry(false), ps[2].entry(true), ps[3].entry(true), dup)),
+            ("alice(other key), bob, alice", format!("{}\n{}\n{}", dup, ps[2].entry(true), ps[0].entry(false))),
+        ] {
+            rep.eval(1);
+            rep.nontrivial(format!("cli-dup-name-{}", label).as_bytes());
+            let sc = Scratch::new();
+            sc.write("kr.txt", kr.as_bytes());
+            sc.write("in.ktl", &from_mallory);
+            let o = proc::run(&Cmd::new(&["decrypt", "in.ktl", "-t", "bob", "-k", "kr.txt", "-o", "out.bin", "--env-pass"]).env("KESTREL_PASSWORD", "bobpw"), &sc.0);
+            if let Err(e) = o.well_behaved() {
+                rep.violation("cli/duplicate-name", json!({"kind":"cli-order","dup":label}), format!("keyring [{}]: {}", label, e));
+            } else if o.ok() {
+                rep.violation("cli/duplicate-name", json!({"kind":"cli-order","dup":label}), format!("keyring [{}] (the name alice stands for two different keys): decrypt of a file made with the second key's private key succeeds: {}", label, o.stderr.lines().last().unwrap_or("")));
+            }
+        }
+    }
     rep.extra("cli_keyring_orders", json!(perms.len()));
 }
 
